@@ -1278,4 +1278,40 @@ class C05(Prop):
         return impl.startswith("OK") and len(case.split()) > 10
 
 
-PROPS = {p.id: p for p in [C06(), C19(), C11(), C16(), C13(), C10(), C15(), C09(), C12(), C14(), C07(), C17(), C05()]}
+
+# ---------------------------------------------------------------------------
+# C18: targets agree on what is target-independent
+# ---------------------------------------------------------------------------
+class C18(Prop):
+    id = "C18"
+    gens = ["GenBindings"]
+    header = 1
+    n_quick = 400
+    n_thorough = 8000
+    design_ref = "DESIGN.md §4 C18"
+    assumptions = [
+        "proved on the macro model of C12 (tied to the preprocessor by C12's correspondence): tables that differ only in the definitions of RSSL_TARGET_HLSL / RSSL_TARGET_MSL expand every token list and every file that does not mention them to the same tokens or the same error; and on the slot model of C06/C05: the set of bound declarations, their kinds and counts do not depend on the parameter record, static samplers aside",
+        "that the front end after preprocessing is shared by all targets is read off compile(): the target is consulted only after type_check (the match on args.target); not a theorem",
+        "observed on the implementation: every repository source, the C14 programs (accepted and rejected) and generated resource programs are compiled for DirectX, Vulkan, Vulkan+buffer addresses and Metal; front-end diagnostics, DirectX/Vulkan success, stages, thread-group sizes, pipeline state, binding names / kinds / counts, and the HLSL texts modulo annotations are compared",
+        "inputs that test the RSSL_TARGET_* macros are compared only between the HLSL targets",
+    ]
+
+    def kind(self, case):
+        w = case.split()
+        return ("R-program" if w[1] == "R" else w[1].split(":")[0]) + " " + w[-1]
+
+    def comparable(self, case, impl, model):
+        return False
+
+    def oracle(self, case, impl, model=None):
+        if impl.startswith("DISAGREE"):
+            return "targets disagree: " + impl[9:400]
+        if impl.startswith("PANIC") or impl.startswith("TIMEOUT"):
+            return "compile aborted: " + impl[:200]
+        return None
+
+    def nontrivial(self, case, impl):
+        return impl.startswith("AGREE ok")
+
+
+PROPS = {p.id: p for p in [C06(), C19(), C11(), C16(), C13(), C10(), C15(), C09(), C12(), C14(), C07(), C17(), C05(), C18()]}
